@@ -1,9 +1,9 @@
 import TabulaModel.Model.Detect
-import TabulaModel.Gen.Tables
+import TabulaModel.Gen.DetectTable
 /-!
 # C20 — regenerated tie: the extension table
 
-`Gen/Tables.lean` is rewritten from the `switch ext` of `format.Detect` on every check run.
+`Gen/DetectTable.lean` is rewritten from the extension switch of package format on every check run.
 -/
 namespace Tabula.C20
 open Tabula.Detect Tabula.Gen.Tables
